@@ -1688,9 +1688,9 @@ main(int argc, char **argv) {
     vxp_enumerate(&c2, case_a2, NULL, &st);
     evals += st.done;
   }
-  /* the fast stage runs the cheap list space first so that a deadline can only cut the big string space */
+  /* the cheap list space runs first so that a deadline can only cut the big string space */
   for (int pass = 0; pass < 2; pass++) {
-    if ((pass == 0) == !big) {
+    if (pass == 1) {
       struct vxp_config c2 = {.space = B2->name, .total = B2->total};
       vxp_enumerate(&c2, case_b, B2, &st);
       evals += st.done;
